@@ -36,6 +36,12 @@ void vp_native_assert_fail(const char *msg, const char *file, int line)
   _Exit(99);
 }
 void vp_native_witness(const char *tag) { (void)tag; }
+void vp_native_unlinked(const char *name)
+{
+  fprintf(stderr, "VP-REPLAY: reached function %s which is not linked in the native replay\n", name);
+  fflush(NULL);
+  _Exit(78);
+}
 #  define VP_CHOICE(T) T v = (T)vp_next(); return v
 #else
 uint8_t  nondet_uint8_t(void);
